@@ -734,8 +734,21 @@ def gen_class_program(rng):
     for _ in range(rng.randint(1, 3)):
         cl, scope, tn = gen_class(ctx, tg, data.namespace.classes, None, 0, anon_ok=False)
         k = rng.random()
-        if k < 0.75 or getattr(scope, "_no_trailing", False):
+        if k < 0.65 or getattr(scope, "_no_trailing", False):
             cl[-1] += ";"
+        elif k < 0.8 and cl[0].lstrip().split(" ", 1)[0] in ("struct", "class", "union"):
+            # `typedef struct N { … } Alias, *PAlias;` — the class is the type of a typedef; its members are read as in any class
+            nm = ctx.name("Td")
+            ctx.form("typedef_class")
+            cl[0] = "typedef " + cl[0].lstrip()
+            if rng.random() < 0.5:
+                cl[-1] += " " + nm + ";"
+                data.namespace.typedefs.append(T.Typedef(T.Type(tn), nm))
+            else:
+                nm2 = ctx.name("PTd")
+                cl[-1] += " " + nm + ", *" + nm2 + ";"
+                data.namespace.typedefs.append(T.Typedef(T.Type(tn), nm))
+                data.namespace.typedefs.append(T.Typedef(T.Pointer(T.Type(tn)), nm2))
         else:
             nm = ctx.name("g")
             ctx.form("trailing_declarators")
